@@ -254,6 +254,13 @@ def scenario_sets(tier, seed):
         # main operations; fiber 2: every operation as a single block
         first = progs(alph, 1, False) + [p for p in progs(QUICK2.get(cls, alph), 2, nest) if len(p) > 1]
         ex += lock_pairs(cls, first, progs(alph, 1, False))
+    # one fiber goes to depth >= 2, releases one level and re-acquires (lock / try_lock / timed) before the final
+    # unlocks: alone, and next to a second fiber contending with every operation
+    for cls in ("recursive_mutex", "recursive_timed_mutex"):
+        alph = ALPH[cls]
+        deep = ["L(%s%s)" % (a, b) for a in "LT" for b in alph] + ["L(L(L)%s)" % b for b in "LT"] + ["L(L)%s" % b for b in "LT"]
+        ex += ["%s/%s" % (cls, d) for d in deep]
+        ex += lock_pairs(cls, deep, progs(alph, 1, False))
     ex += cv_scenarios(2, 1)
     ex += ["cv/%s|%s" % (a, b) for a in progs("WuNAn", 2, False) if len(a) == 2 for b in "WwuxNAn"
            if cv_ok((a, b)) and any(c in a + b for c in "Wwxu") and any(c in a + b for c in "NAn")]
@@ -311,6 +318,8 @@ def scenario_sets(tier, seed):
             big.append("cv/" + "|".join(t))
         else:
             pl = progs(ALPH[cls], 2, cls.startswith("recursive"))
+            if cls.startswith("recursive"):
+                pl = pl + ["L(%s%s)" % (a, b) for a in "LT" for b in ALPH[cls]] * 3
             big.append("%s/%s" % (cls, "|".join(rnd.choice(pl) for _ in range(k))))
     # always mix untimed shared lockers with timed exclusive ones (and sleeps inside critical sections)
     for i in range(8 if tier == "quick" else 40):
